@@ -1494,7 +1494,14 @@ chkpnt1(uid_t u)
 	if (UNLIKELY(!inittedp)) {
 		echs_icalify_init(fd, (echs_instruc_t){INSVERB_UNK});
 	}
-	echs_icalify_fini(fd);
+	if (echs_icalify_fini(fd) < 0) {
+		/* whatever is in there is incomplete, don't publish it */
+		int x = errno;
+		(void)close(fd);
+		(void)unlinkat(qdirfd, fn, 0);
+		errno = x;
+		goto err;
+	}
 	if (close(fd) < 0 || renameat(qdirfd, fn, qdirfd, fn + 1) < 0) {
 		int x = errno;
 		(void)unlinkat(qdirfd, fn, 0);
@@ -1519,6 +1526,7 @@ chkpnta(void)
 	ndnd_t *snds;
 	size_t nsnds = 0UL;
 	size_t zsnds = countof(chkpnts);
+	int bad = 0;
 	int rc = 0;
 
 	if (UNLIKELY((snds = malloc(zsnds * sizeof(*snds))) == NULL)) {
@@ -1593,13 +1601,16 @@ chkpnta(void)
 			}
 			break;
 		}
-		echs_icalify_fini(fd);
+		/* the files have been written alternately, so a failed write
+		 * could have hit any of them, once bad always bad */
+		bad |= echs_icalify_fini(fd) < 0;
 		if (snprintf(fn, sizeof(fn), ".echsq_%u.ics", u) < 0) {
 			/* oh fuck, there's really nothing we can do */
 			rc = -1;
 			continue;
 		}
-		if (close(fd) < 0 || renameat(qdirfd, fn, qdirfd, fn + 1) < 0) {
+		if (close(fd) < 0 || bad ||
+		    renameat(qdirfd, fn, qdirfd, fn + 1) < 0) {
 			ECHS_ERR_LOG("\
 cannot checkpoint user %u's queue", u);
 			(void)unlinkat(qdirfd, fn, 0);
